@@ -679,6 +679,18 @@ class Flow:
             return T_FLOAT, set()
         if t is not None and t.name == "ndarray" and e.attr in ("T", "shape", "value"):
             return t if e.attr == "T" else None, set()
+        if t is None and v:
+            # untyped receiver: an attribute load may run any @property of that name (CHA by name)
+            getters = [c.getters[e.attr] for c in M.classes.values() if e.attr in c.getters
+                       and not c.module.name.endswith(".notebook")]
+            if getters:
+                self._record_call(e, getters, None, v, None, [], {}, implicit="property-cha", method=e.attr)
+                out = self.read_all(v, e.attr)
+                rt = None
+                for g in getters:
+                    out |= self._apply_returns(g, v, [], {}, e)
+                    rt = rt or M.return_type(g)
+                return (rt if len(getters) == 1 else None), out
         return None, self.read_all(v, e.attr)
 
     def _subscript(self, e: ast.Subscript) -> Tuple[Optional[Ty], Set[AV]]:
